@@ -45,6 +45,7 @@ CONSTANTS
     MaxCrashes,      \* how many times a session may be killed
     MaxSessions,     \* sessions in total (>= 1)
     NormalExit,      \* TRUE: a finished session runs its exit handlers
+    MaxWorkerKills,  \* beyond C16/C17: how many single worker processes may be killed (0 in every check of a property)
     HeaderOnEmpty, OwnBuffer, HeaderNoClaim
 
 None == 0           \* lock owners: None, MainId or a call id
@@ -272,14 +273,29 @@ SRel(c) ==
     /\ fileLock' = None /\ To(c, "done")
     /\ Op(c, "rel_file") /\ UNCHANGED <<files, evalLock, ids, snap>> /\ CallKeep
 
-Call(c) == \/ EAcq(c) \/ EOpenR(c) \/ ERelErr(c) \/ ERead(c) \/ ERelDup(c) \/ EOpenA(c) \/ EFlush(c) \/ ERel(c)
+(***************************************************************************)
+(* Beyond the listed properties: ONE worker process is killed (OOM killer, *)
+(* kill -9 of a pool worker) while the rest of the session lives on.  A    *)
+(* multiprocessing lock is a semaphore in shared memory: what the dead     *)
+(* worker held stays held.  (C16 quantifies over schedules without         *)
+(* crashes, C17 over kills of the whole run.)                              *)
+(***************************************************************************)
+Dead(c) == pc[c] = "dead"
+KillOne(c) ==
+    /\ MaxWorkerKills > 0
+    /\ pc[c] \notin {"idle", "done", "dup", "err", "dead"}
+    /\ Cardinality({d \in CallIds : Dead(d)}) < MaxWorkerKills
+    /\ To(c, "dead")
+    /\ Op(c, "killed") /\ UNCHANGED <<files, evalLock, fileLock, ids, snap>> /\ CallKeep
+
+Call(c) == \/ KillOne(c) \/ EAcq(c) \/ EOpenR(c) \/ ERelErr(c) \/ ERead(c) \/ ERelDup(c) \/ EOpenA(c) \/ EFlush(c) \/ ERel(c)
            \/ ECompute(c) \/ FAcq(c) \/ FOpen(c) \/ FFlush(c) \/ FRel(c)
            \/ SAcq(c) \/ SOpen(c) \/ SRead(c) \/ SRel(c)
 
 (***************************************************************************)
 (* End of a session, crash, restart.                                       *)
 (***************************************************************************)
-Returned(c) == pc[c] \in {"done", "dup", "err"}
+Returned(c) == pc[c] \in {"done", "dup", "err", "dead"}
 AllReturned == \A c \in CallIds : Returned(c)
 
 \* normal exit: the handlers of the registered aggregators, in registration order
@@ -360,6 +376,11 @@ SiblingsIndependent == \A a \in AggSet : Range(Rows(a)) \subseteq {"H"} \cup Sub
 \* rows already written are never altered or removed (action property)
 RowsAppendOnly == [][\A a \in AggSet : /\ Len(Rows(a)') >= Len(Rows(a))
                                        /\ SubSeq(Rows(a)', 1, Len(Rows(a))) = Rows(a)]_vars
+
+\* the hazard of a single killed worker: a lock it held is orphaned, and every other call that needs
+\* it waits forever (both are FALSE in the shipped design as soon as MaxWorkerKills > 0)
+NoOrphanedLock == \A c \in CallIds : Dead(c) => (evalLock # c /\ fileLock # c)
+SurvivorsReturn == <>(\A c \in CallIds : Returned(c))
 
 \* liveness: no call blocks forever - every session that is not killed comes to its end
 AllDone == <>(mpc.ph \in {"over", "failed"})
